@@ -865,7 +865,7 @@ func TestVerifC41(t *testing.T) {
 	a := &vfC41A{}
 	a.connect(env, m, rep)
 
-	nseq := vk.N(2000, 200000)
+	nseq := vk.N(2000, 120000)
 	var selfTokens []string
 	for seq := 0; seq < nseq; seq++ {
 		r := vk.RandFor(41, seq)
@@ -924,12 +924,36 @@ func TestVerifC41(t *testing.T) {
 		}
 
 		// gen builds one request for the unauthenticated connection
+		// The server handles one request per session at a time (the session object carries the
+		// request/response buffers). EndSession has no response, so a request sent right after it on
+		// the same session id can overlap it: a session id is retired once EndSession was sent on it.
+		// Overlapping requests are a separate, deliberate stimulus (see "overlap" below).
+		retired := map[uint32]bool{}
+		base := []uint32{1, 2, 3}
 		pickSid := func() uint32 {
-			if r.IntN(8) == 0 {
-				return uint32(r.IntN(1000)) + 5
+			for {
+				var sid uint32
+				if r.IntN(8) == 0 {
+					sid = uint32(r.IntN(1000)) + 100
+				} else {
+					sid = base[r.IntN(3)]
+				}
+				if !retired[sid] {
+					return sid
+				}
 			}
-			return uint32(1 + r.IntN(3))
 		}
+		nextBase := uint32(2000)
+		retire := func(sid uint32) {
+			retired[sid] = true
+			for i, b := range base {
+				if b == sid {
+					nextBase++
+					base[i] = nextBase
+				}
+			}
+		}
+		overlapped := false
 		genInt := func() int64 {
 			pool := []int64{0, 0, 1, 2, 3, -1, a.openTn, a.readTn, a.readQn, a.cursor, lastNum.Load(), lastNum.Load() - 1, int64(r.IntN(50))}
 			pool = append(pool, u.tns...)
@@ -1334,6 +1358,7 @@ func TestVerifC41(t *testing.T) {
 					rep.Count("requests_unauthenticated", 1)
 					steps = append(steps, vfC41Step{Sid: sid, Req: q.desc.String(), Resp: "(none expected)"})
 				}
+				retire(sid)
 				continue
 			}
 			if cmd == commands.Kill {
@@ -1349,6 +1374,38 @@ func TestVerifC41(t *testing.T) {
 				}
 			}
 		}
+		// occasionally: several requests on ONE session id without waiting for the responses. The
+		// responses may legitimately be in any order/garbled for this misbehaving session, so they are
+		// not judged; what is judged is everything else afterwards (other sessions, database, server).
+		if !u.w.dead && !u.authed && r.IntN(12) == 0 {
+			overlapped = true
+			n := 2 + r.IntN(3)
+			sent := 0
+			osid := uint32(5000 + r.IntN(3))
+			for i := 0; i < n; i++ {
+				cmd := commands.Command(r.IntN(int(commands.Asof) + 1))
+				switch cmd {
+				case commands.Nonce, commands.Auth, commands.Kill, commands.Token, commands.SessionId:
+					cmd = commands.EndSession
+				}
+				q := gen(cmd)
+				if u.w.send(osid, q.b, nil) != nil {
+					break
+				}
+				if cmd != commands.EndSession {
+					sent++
+				}
+				steps = append(steps, vfC41Step{Sid: osid, Req: q.desc.String() + " [overlapping]", Resp: "(not judged)"})
+			}
+			rep.Count("overlapping_requests", sent)
+			// collect what comes back (at most one message per request that has a response); a final
+			// request on a fresh session id acts as a barrier
+			q := vfC41NewReq(byte(commands.Libraries))
+			vfC41Call(u.w, 5100, q, nil)
+			checkSideEffects(q, "overlapping-requests")
+			retire(osid)
+		}
+
 		// occasionally: frames that are not requests at all (framing level hostility)
 		if !u.w.dead && !u.authed && r.IntN(25) == 0 {
 			q := vfC41NewReq(0)
@@ -1378,8 +1435,8 @@ func TestVerifC41(t *testing.T) {
 		if !u.authed {
 			if !u.w.dead {
 				q := vfC41NewReq(byte(commands.Final))
-				rd, ok, alive := vfC41Call(u.w, 3, q, nil)
-				record(3, q, rd, ok, alive)
+				rd, ok, alive := vfC41Call(u.w, 9001, q, nil)
+				record(9001, q, rd, ok, alive)
 				if alive && ok {
 					rep.Violate("C41/authorized-without-auth", "Final accepted at the end of the sequence", witness())
 				} else if alive {
@@ -1396,7 +1453,11 @@ func TestVerifC41(t *testing.T) {
 		}
 		if !a.w.dead {
 			if dmg := a.verify(r, rep, true); dmg != "" {
-				rep.Violate("C41/other-session-affected/"+strings.SplitN(dmg, " ", 2)[0], fmt.Sprintf("seq %d", seq),
+				cl := "C41/other-session-affected/" + strings.SplitN(dmg, " ", 2)[0]
+				if overlapped {
+					cl += "/after-overlapping-requests"
+				}
+				rep.Violate(cl, fmt.Sprintf("seq %d", seq),
 					map[string]any{"damage": dmg, "authenticated_session": a.name, "history": witness()})
 				a.w.close()
 			} else {
